@@ -1,6 +1,6 @@
 From Coq Require Import extraction.Extraction extraction.ExtrOcamlBasic.
-From TU Require Import Base C08_Model Pipeline_Model C08_Pipeline.
-Definition run := run_C08x.
-Definition check := check_C08x.
-Definition agree := agree_C08x.
+From TU Require Import Base C08_Model Pipeline_Model C08_Pipeline Pipeline_Tasks C08_Bytes.
+Definition run := run_C08y.
+Definition check := check_C08y.
+Definition agree := agree_C08y.
 Extraction "model.ml" run check agree.
